@@ -16,7 +16,8 @@ SPEC = "KeyOrder"
 CF03_FIXED = os.environ.get("C03_CF03_FIXED", "1") != "0"
 PURE_INVS = ("TypeOK InvEqRefl InvEqSym InvEqTrans InvEqClasses InvCmpRefl InvCmpAntisym InvCmpTrans InvCmpRank "
              "InvEqHash InvPerm InvEqCmp InvDevIsViolation")
-MEMO_INVS = "TypeOK RetOK MemoOK CloneOK"
+MEMO_INVS = "TypeOK RetOK MemoOK CloneOK EqCmpAgree EqIgnoresMemo"
+TIERTAG = "q"              # generated cfg names carry the tier, so a quick and a thorough run can share specs/KeyOrder
 
 
 def _tf(b):
@@ -24,7 +25,7 @@ def _tf(b):
 
 
 def pure_cfg(name, mode="scope", t8=3, nn=2, nk=2, nv=2, maxlen=3, famlens=(), spec="Spec", invs=PURE_INVS):
-    p = os.path.join(vlib.SPECS, SPEC, "gen_%s.cfg" % name)
+    p = os.path.join(vlib.SPECS, SPEC, "gen_%s_%s.cfg" % (TIERTAG, name))
     with open(p, "w") as f:
         f.write("SPECIFICATION %s\nCONSTANTS\n T8 = %d\n CF03Fixed = %s\n Mode = \"%s\"\n NN = %d\n NK = %d\n NV = %d\n"
                 " MaxLen = %d\n FamLens = {%s}\nINVARIANTS %s\nCHECK_DEADLOCK FALSE\n"
@@ -32,13 +33,13 @@ def pure_cfg(name, mode="scope", t8=3, nn=2, nk=2, nv=2, maxlen=3, famlens=(), s
     return os.path.basename(p)
 
 
-def memo_cfg(name, getters, cloners, calls, kinds=("static", "built"), spec="Spec", invs=MEMO_INVS):
-    p = os.path.join(vlib.SPECS, SPEC, "gen_%s.cfg" % name)
+def memo_cfg(name, getters, cloners, calls, kinds=("static", "built"), spec="Spec", invs=MEMO_INVS, comparers=(), eq_variant=False):
+    p = os.path.join(vlib.SPECS, SPEC, "gen_%s_%s.cfg" % (TIERTAG, name))
     with open(p, "w") as f:
         f.write("SPECIFICATION %s\nCONSTANTS\n Getters = {%s}\n Cloners = {%s}\n NCalls = %d\n InitKinds = {%s}\n"
-                "INVARIANTS %s\nCHECK_DEADLOCK FALSE\n"
+                " Comparers = {%s}\n EqReadsMemoValueFirst = %s\nINVARIANTS %s\nCHECK_DEADLOCK FALSE\n"
                 % (spec, ", ".join(str(x) for x in getters), ", ".join(str(x) for x in cloners), calls,
-                   ", ".join('"%s"' % k for k in kinds), invs))
+                   ", ".join('"%s"' % k for k in kinds), ", ".join(str(x) for x in comparers), _tf(eq_variant), invs))
     return os.path.basename(p)
 
 
@@ -230,14 +231,23 @@ def run_pure(chk, thorough, rng):
 
 
 def run_memo(chk, thorough):
-    mcs = [("memo_3g1c_2", [1, 2, 3], [11], 2), ("memo_4g2c_1", [1, 2, 3, 4], [11, 12], 1)]
+    # getters + cloners + comparers (k == other / cmp / Hash evaluated at every point of the first hashing)
+    mcs = [("memo_3g1c1q_2", [1, 2, 3], [11], [21], 2), ("memo_4g2c2q_1", [1, 2, 3, 4], [11, 12], [21, 22], 1)]
     if thorough:
-        mcs.append(("memo_4g2c_2", [1, 2, 3, 4], [11, 12], 2))
-    for name, g, c, n in mcs:
-        r = vlib.tlc_mc(SPEC, "KeyHashMemo", memo_cfg(name, g, c, n), workers=8, timeout=1800, tag=name)
-        if not chk.expect_mc_ok(r, "KeyHashMemo/" + name):
+        mcs.append(("memo_4g2c1q_2", [1, 2, 3, 4], [11, 12], [21], 2))
+    for name, g, c, q, n in mcs:
+        r = vlib.tlc_mc(SPEC, "KeyHashMemo", memo_cfg(name, g, c, n, comparers=q), workers=8, timeout=1800, tag=name)
+        # the two steps of the witness variant of eq are disabled in the as-coded model
+        if not chk.expect_mc_ok(r, "KeyHashMemo/" + name, vacuity_exempt={"CompareLoadValues", "CompareLoadFlags"}):
             return False
         chk.log("TLC %s: %d distinct states, depth %d" % (name, r["distinct"], r["depth"]))
+    # witness: an eq() that reads the cached hash VALUES before the `hashed` FLAGS must be rejected by TLC
+    r = vlib.tlc_mc(SPEC, "KeyHashMemo", memo_cfg("eq_reads_memo_witness", [1], [], 1, kinds=("static",), comparers=[21], eq_variant=True,
+                                                  invs="EqCmpAgree EqIgnoresMemo"), workers=1, timeout=600, coverage=False, tag="eqwit")
+    if r["invariant"] not in ("EqCmpAgree", "EqIgnoresMemo"):
+        chk.tool_error("witness EqReadsMemoValueFirst = TRUE is not rejected by TLC (%s / %s)" % (r["invariant"], r["error"]), r["out"][-3000:])
+    chk.notes["eq_reads_memo_witness"] = "rejected by TLC: invariant %s violated after %d states" % (r["invariant"], r["generated"])
+    chk.log("TLC rejects the witness variant EqReadsMemoValueFirst (invariant %s)" % r["invariant"])
 
     # spec -> impl: EVERY complete schedule of the small configurations + sampled ones with cloners
     behs = []
@@ -249,9 +259,9 @@ def run_memo(chk, thorough):
             chk.tool_error("no schedules from SimKeyHashMemo %s (%s)" % (name, r["error"]), r["out"][-2000:])
         chk.notes.setdefault("schedules_exhaustive", {})[name] = len(b)
         behs += b
-    for name, g, c, n, num in [("sim_3g1c_2", [1, 2, 3], [11], 2, 1200 if thorough else 150),
-                               ("sim_4g2c_1", [1, 2, 3, 4], [11, 12], 1, 1200 if thorough else 150)]:
-        r = vlib.tlc_mc(SPEC, "SimKeyHashMemo", memo_cfg(name, g, c, n, spec="SimSpec", invs="Emit"), workers=1, timeout=900,
+    for name, g, c, q, n, num in [("sim_3g1c1q_2", [1, 2, 3], [11], [21], 2, 1200 if thorough else 150),
+                                  ("sim_4g2c2q_1", [1, 2, 3, 4], [11, 12], [21, 22], 1, 1200 if thorough else 150)]:
+        r = vlib.tlc_mc(SPEC, "SimKeyHashMemo", memo_cfg(name, g, c, n, spec="SimSpec", invs="Emit", comparers=q), workers=1, timeout=900,
                         coverage=False, tag=name, extra=["-simulate", "num=%d" % num, "-depth", "200", "-seed", str(chk.seed)])
         b = vlib.replay_lines(r["out"])
         if not b:
@@ -286,11 +296,23 @@ def run_memo(chk, thorough):
             % (s3["runs"], s3["keys_computed_by_two_or_more_threads"], s3["returns"], s3["bad"]))
     vlib.validate_concat(chk, SPEC, "TraceKeyHashMemo", "TraceKeyHashMemo.cfg", tr, "real-parallel first use of get_hash", max_rounds=3)
     chk.cov["traces_validated_against_impl"] += s3["runs"]
+
+    # real-parallel: ==, cmp and Hash evaluated WHILE another thread hashes the key for the first time
+    tr = chk.path("eqrace.ndjson")
+    s4 = harness(chk, ["eqrace", "--runs", 240 if thorough else 24, "--keys", 2048, "--out", tr], "eqrace", timeout=1800)
+    chk.notes["eqrace"] = s4
+    chk.log("eqrace: %d runs x %d fresh lazily hashed keys (memo fields at %s), %d evaluations of ==/cmp/Hash during the first "
+            "get_hash, %d answer tuples other than the structural verdict" % (s4["runs"], s4["keys_per_run"], s4["layout"],
+                                                                              s4["evaluations"], s4["unexpected_tuples"]))
+    validate_pure(chk, tr, "== / cmp / Hash raced with the first get_hash (real-parallel)")
+    chk.cov["evaluations"] += s4["evaluations"]
     return True
 
 
 def run(chk):
+    global TIERTAG
     thorough = chk.tier == "thorough"
+    TIERTAG = "t" if thorough else "q"
     rng = random.Random(chk.seed)
     chk.assumptions += [
         "strings are compared as sequences of Unicode code points (Rust compares UTF-8 bytes: the same order for valid UTF-8, "
@@ -302,6 +324,9 @@ def run(chk):
         "themselves are not modelled); returned hashes are logged as 1 (= reference hash from KeyHasher over Hash::hash on "
         "another key) or 0; Key::clone runs between two scheduler grants (its two loads are one step in scheduled runs, two "
         "steps in the TLC model and in the real-parallel trials)",
+        "==, cmp and Hash concurrent with a first get_hash(): decided by TLC on the model (comparer processes; witness variant "
+        "rejected) and observed on real hardware only (no yield points inside eq/cmp/Hash): many fresh keys, placed so that a "
+        "cache-line boundary runs between the two memo fields, every distinct answer tuple judged by TLC; no timing assertion",
         "exhaustive scope: 2 names x 2 label names x 2 values, label lists up to 3 (thorough 4) with the '8' threshold shrunk to "
         "3 (and 4); the real threshold is reached by the padded families (lengths 3..9) and the random keys (0..12 labels)",
     ]
@@ -327,6 +352,12 @@ def replay(chk, path):
     if not path.endswith(".ndjson"):
         return run(chk)
     first = json.loads(open(path).readline())
+    if first.get("src") == "eqrace":
+        # a real-parallel race cannot be re-executed step by step: run the stage again (same seed)
+        tr = chk.path("eqrace_again.ndjson")
+        harness(chk, ["eqrace", "--runs", 24, "--keys", 2048, "--out", tr], "eqrace")
+        validate_pure(chk, tr, "replay (re-run) " + path)
+        return
     if "strs" in first:
         tr = chk.path("rebuild.ndjson")
         harness(chk, ["rebuild", "--in", path, "--out", tr], "rebuild")
@@ -334,13 +365,14 @@ def replay(chk, path):
         return
     # get_hash race: the schedule is the sequence of granted .pre events
     pcs = {"key.hashed.load.pre": "lh", "key.hash.load.pre": "lv", "key.hash.store.pre": "sv", "key.hashed.store.pre": "sh",
-           "c03.clone.pre": "c1"}
+           "c03.clone.pre": "c1", "c03.cmp.pre": "q0"}
     progs, cur = [], None
     for line in open(path):
         e = json.loads(line)
         if e.get("ev") == "reset":
             a = e.get("a") or []
-            cur = {"getters": a[0], "cloners": a[1], "calls": a[2], "init": e["init"], "sched": []} if len(a) == 3 else None
+            cur = {"getters": a[0], "cloners": a[1], "calls": a[2], "comparers": e.get("comparers", 0), "init": e["init"],
+                   "sched": []} if len(a) == 3 else None
             if cur:
                 progs.append(cur)
         elif cur is not None and e.get("ev") in pcs:
